@@ -646,6 +646,86 @@ def ns_config_checks(obj, cls, tag, validate, schema, reference_canon, fails, co
                           last_member(ex), {'configuration': label, 'xml': short(b1)}))
 
 
+# ---- the READ direction on documents the library would never write itself: the same infoset, re-serialised
+# independently with the namespace declaration of every xsi:type value MOVED onto the element that carries it
+# ('local': a new prefix declared there) or SHADOWED (a prefix that the root binds to another namespace is re-bound there)
+XSI_TYPE = '{http://www.w3.org/2001/XMLSchema-instance}type'
+
+
+def relocate_ns(src_root, mode):
+    """(new root, number of rewritten xsi:type values); None when nothing carries an xsi:type"""
+    n_rewritten = 0
+
+    def strings(el):
+        for e in el.iter():
+            if isinstance(e.tag, str):
+                yield e.text or ''
+                yield from e.attrib.values()
+
+    def rec(src, src_parent, parent):
+        nonlocal n_rewritten
+        local = {k: v for k, v in src.nsmap.items() if src_parent is None or src_parent.nsmap.get(k) != v}
+        attrib = dict(src.attrib)
+        t = src.get(XSI_TYPE)
+        if t is not None:
+            pfx, _, name = t.rpartition(':')
+            ns = src.nsmap.get(pfx or None)
+            new_pfx = None
+            if ns is not None:
+                if mode == 'local':
+                    new_pfx = 'lt'
+                else:       # a prefix the ROOT binds to a different namespace and that no value in the subtree uses
+                    txt = list(strings(src))
+                    for cand, uri in sorted((k, v) for k, v in src_root.nsmap.items() if k):
+                        if uri != ns and cand != 'xsi' and not any(cand + ':' in x for x in txt):
+                            new_pfx = cand
+                            break
+            if new_pfx is not None:
+                local[new_pfx] = ns
+                attrib[XSI_TYPE] = f'{new_pfx}:{name}'
+                n_rewritten += 1
+        if parent is None:
+            new = etree.Element(src.tag, attrib=attrib, nsmap=local)
+        else:
+            new = etree.SubElement(parent, src.tag, attrib=attrib, nsmap=local)
+        new.text, new.tail = src.text, src.tail
+        for ch in src:
+            if isinstance(ch.tag, str):
+                rec(ch, src, new)
+        return new
+
+    new_root = rec(src_root, None, None)
+    return (new_root, n_rewritten) if n_rewritten else None
+
+
+def relocated_reads(cls, b1, reference_canon, validate, schema, fails, count):
+    for mode, label in (('local', 'xsi:type prefix declared locally on the element that carries it'),
+                        ('shadow', 'xsi:type prefix re-bound (shadowed) on the element that carries it')):
+        res = relocate_ns(etree.fromstring(b1), mode)
+        if res is None:
+            return
+        doc_bytes = tob(res[0])
+        doc = etree.fromstring(doc_bytes)
+        if validate and not schema.validate(doc):
+            count('relocated_not_schema_valid_skipped')
+            continue
+        count('relocated_documents: ' + mode)
+        count('relocated_xsi_type_values', res[1])
+        try:
+            back = X.parse(cls, doc)
+        except Exception as ex:  # noqa: BLE001
+            fails.append((f'read raises {type(ex).__name__} on a document with relocated namespace declarations', 'xsi:type',
+                          {'relocation': label, 'error': short(str(ex), 300), 'document': short(doc_bytes, 1200),
+                           'original': short(b1, 600)}))
+            continue
+        cb = X.canon(back)
+        if cb != reference_canon:
+            path, a, b_ = X.canon_diff(reference_canon, cb)
+            fails.append(('value read from a document with relocated namespace declarations differs', path,
+                          {'relocation': label, 'original document gives': short(str(a), 200), 'relocated gives': short(str(b_), 200),
+                           'document': short(doc_bytes, 1200), 'descriptor': descriptor_at(back, path)}))
+
+
 def run_classes():
     import hashlib
     types, elems = load_schema_index()
@@ -757,6 +837,12 @@ def run_classes():
                     res['fail'].append({'clause': 'not schema-valid', 'member': xsd_member(err.message),
                                         'detail': {'error': err.message[:400], 'xml': short(b1, 900)}})
                     bad = True
+            # ---- the same document with the namespace declarations of the xsi:type values moved / shadowed
+            if c1 == c2 and cls is not X.mex_types.Metadata:
+                try:
+                    relocated_reads(cls, b1, c2, validate, schema, fails, count)
+                except Exception as ex:  # noqa: BLE001
+                    fails.append((f'relocation harness raises {type(ex).__name__}', 'harness', {'trace': short(traceback.format_exc()[-600:], 600)}))
             # ---- the same value under non-default namespace configurations
             if i < req.get('ns_instances', 3) and c1 == c2 and cls is not X.mex_types.Metadata:
                 ns_config_checks(obj, cls, tag, validate, schema, c1, fails, count)
